@@ -34,6 +34,12 @@ use crate::{
 /// real-world OPEN/BEGIN/ATTACH frames carry single-digit element counts.
 pub const MAX_ARRAY_COUNT: usize = 65_536;
 
+/// Maximum nesting depth of compound / described values that will be decoded.
+///
+/// Decoding recurses once per nesting level, so without a bound a few kilobytes of
+/// nested list headers received from a peer exhaust the stack.
+pub const MAX_NESTING_DEPTH: usize = 128;
+
 /// Deserialize an instance of type T from an IO stream
 pub fn from_reader<T: de::DeserializeOwned>(reader: impl std::io::Read) -> Result<T, Error> {
     let reader = IoReader::new(reader);
@@ -57,6 +63,7 @@ pub struct Deserializer<R> {
     enum_type: EnumType,
     struct_encoding: StructEncoding,
     elem_format_code: Option<EncodingCodes>,
+    depth: usize,
 }
 
 impl<'de, R: Read<'de>> Deserializer<R> {
@@ -69,7 +76,22 @@ impl<'de, R: Read<'de>> Deserializer<R> {
             enum_type: Default::default(),
             struct_encoding: StructEncoding::None,
             elem_format_code: None,
+            depth: 0,
         }
+    }
+
+    /// Deserialize a nested value with `seed`, keeping track of the nesting depth
+    fn deserialize_nested<T>(&mut self, seed: T) -> Result<T::Value, Error>
+    where
+        T: de::DeserializeSeed<'de>,
+    {
+        if self.depth >= MAX_NESTING_DEPTH {
+            return Err(de::Error::custom("Maximum nesting depth exceeded"));
+        }
+        self.depth += 1;
+        let result = seed.deserialize(&mut *self);
+        self.depth -= 1;
+        result
     }
 
     fn read_format_code(&mut self) -> Option<Result<EncodingCodes, Error>> {
@@ -1414,7 +1436,7 @@ impl<'de, R: Read<'de>> de::SeqAccess<'de> for ArrayAccess<'_, R> {
             }
             _ => {
                 self.count -= 1;
-                let result = seed.deserialize(self.as_mut())?;
+                let result = self.as_mut().deserialize_nested(seed)?;
                 // Defense in depth: bound iteration by bytes consumed, not
                 // just by `count`. The pre-loop `count <= len` /
                 // `count <= MAX_ARRAY_COUNT` checks already reject the known
@@ -1473,7 +1495,7 @@ impl<'de, R: Read<'de>> de::SeqAccess<'de> for ListAccess<'_, R> {
             0 => Ok(None),
             _ => {
                 self.count -= 1;
-                seed.deserialize(self.as_mut()).map(Some)
+                self.as_mut().deserialize_nested(seed).map(Some)
             }
         }
     }
@@ -1532,7 +1554,7 @@ impl<'de, R: Read<'de>> de::SeqAccess<'de> for TransparentVecAccess<'_, R> {
             None => return Ok(None),
         }
 
-        seed.deserialize(self.as_mut()).map(Some)
+        self.as_mut().deserialize_nested(seed).map(Some)
     }
 }
 
@@ -1571,7 +1593,7 @@ impl<'de, R: Read<'de>> de::MapAccess<'de> for MapAccess<'_, R> {
             0 => Ok(None),
             _ => {
                 self.count -= 1;
-                seed.deserialize(self.as_mut()).map(Some)
+                self.as_mut().deserialize_nested(seed).map(Some)
             }
         }
     }
@@ -1581,7 +1603,7 @@ impl<'de, R: Read<'de>> de::MapAccess<'de> for MapAccess<'_, R> {
         V: de::DeserializeSeed<'de>,
     {
         self.count -= 1;
-        seed.deserialize(self.as_mut())
+        self.as_mut().deserialize_nested(seed)
     }
 
     fn next_entry_seed<K, V>(
@@ -1598,8 +1620,8 @@ impl<'de, R: Read<'de>> de::MapAccess<'de> for MapAccess<'_, R> {
             _ => {
                 // AMQP map count includes both key and value
                 self.count -= 2;
-                let key = kseed.deserialize(self.as_mut())?;
-                let val = vseed.deserialize(self.as_mut())?;
+                let key = self.as_mut().deserialize_nested(kseed)?;
+                let val = self.as_mut().deserialize_nested(vseed)?;
                 Ok(Some((key, val)))
             }
         }
@@ -1792,7 +1814,7 @@ impl<'de, R: Read<'de>> de::SeqAccess<'de> for DescribedAccess<'_, R> {
         let code = byte.try_into()?;
         let result = match code {
             EncodingCodes::DescribedType => {
-                let result = seed.deserialize(self.as_mut()).map(Some);
+                let result = self.as_mut().deserialize_nested(seed).map(Some);
                 // The list header should only be consume once for each list
                 // The sublist will create new DescribedAccess and thus take care of their own
                 // list headers
@@ -1803,7 +1825,7 @@ impl<'de, R: Read<'de>> de::SeqAccess<'de> for DescribedAccess<'_, R> {
                 }
                 result
             }
-            _ => seed.deserialize(self.as_mut()).map(Some),
+            _ => self.as_mut().deserialize_nested(seed).map(Some),
         };
 
         self.counter += 1;
@@ -1835,7 +1857,7 @@ impl<'de, R: Read<'de>> de::MapAccess<'de> for DescribedAccess<'_, R> {
             }
             EncodingCodes::DescribedType => {
                 self.de.enum_type = EnumType::Descriptor;
-                let result = seed.deserialize(self.as_mut()).map(Some);
+                let result = self.as_mut().deserialize_nested(seed).map(Some);
                 if self.counter == 0 {
                     if let StructEncoding::DescribedMap = self.de.struct_encoding {
                         self.field_count += self.consume_map_header()?;
@@ -1843,7 +1865,7 @@ impl<'de, R: Read<'de>> de::MapAccess<'de> for DescribedAccess<'_, R> {
                 }
                 result
             }
-            _ => seed.deserialize(self.as_mut()).map(Some),
+            _ => self.as_mut().deserialize_nested(seed).map(Some),
         };
 
         self.counter += 1;
@@ -1859,7 +1881,7 @@ impl<'de, R: Read<'de>> de::MapAccess<'de> for DescribedAccess<'_, R> {
             return Err(de::Error::custom("Invalid length. Expecting value"));
         }
         self.counter += 1;
-        seed.deserialize(self.as_mut())
+        self.as_mut().deserialize_nested(seed)
     }
 
     fn next_entry_seed<K, V>(
@@ -1886,8 +1908,8 @@ impl<'de, R: Read<'de>> de::MapAccess<'de> for DescribedAccess<'_, R> {
                 Ok(None)
             }
             _ => {
-                let key = kseed.deserialize(self.as_mut())?;
-                let value = vseed.deserialize(self.as_mut())?;
+                let key = self.as_mut().deserialize_nested(kseed)?;
+                let value = self.as_mut().deserialize_nested(vseed)?;
                 Ok(Some((key, value)))
             }
         }
